@@ -115,3 +115,38 @@ mk gauss-for-loop src/utils/mod2_sys.rs "        self.equations
                 eq.c ^ Modulo2Equation::<W>::eval_vars(&eq.vars, &solution);
         }"
 mk addptr-ne src/utils/mod2_sys.rs "dst = dst.add((less ^ more) as usize);" "dst = dst.add((less != more) as usize);"
+mk rank-negated-test src/traits/rank_sel.rs "        if pos >= self.len() {
+            self.num_ones()
+        } else {
+            unsafe { self.rank_unchecked(pos) }
+        }" "        let n = self.len();
+        if !(pos < n) {
+            return self.num_ones();
+        }
+        unsafe { self.rank_unchecked(pos) }"
+mk oob-macro-assert src/traits/bit_field_slice.rs "        if \$index >= \$len {
+            panic!(\"Index out of bounds: {} >= {}\", \$index, \$len)
+        }" "        assert!(\$index < \$len, \"Index out of bounds: {} >= {}\", \$index, \$len);"
+mk succ-split-guards src/traits/indexed_dict.rs "        if self.is_empty() || *value.borrow() > self.get(self.len() - 1) {
+            None
+        } else {
+            Some(unsafe { self.succ_unchecked::<false>(value) })
+        }" "        if self.is_empty() {
+            return None;
+        }
+        let last = self.get(self.len() - 1);
+        if *value.borrow() > last {
+            return None;
+        }
+        Some(unsafe { self.succ_unchecked::<false>(value) })"
+mk bitvec-resize-while src/bits/bit_vec.rs "            for i in self.len..new_len {
+                unsafe {
+                    self.set_unchecked(i, value);
+                }
+            }" "            let mut i = self.len;
+            while i < new_len {
+                unsafe {
+                    self.set_unchecked(i, value);
+                }
+                i += 1;
+            }"
